@@ -211,6 +211,9 @@ func vfC18RunPush(c vfC18PushCase, emit func(vfC18PushVec)) {
 	cfg.HostDialer = px
 	cfg.Compressor = vfC18Compressor(c.Negotiated)
 	cfg.ReconnectionPolicy = &ConstantReconnectionPolicy{MaxRetries: 1, Interval: time.Millisecond}
+	// generous time limits: on a saturated machine a late answer must not read as "not delivered"
+	cfg.Timeout = 5 * time.Second
+	cfg.ConnectTimeout = 10 * time.Second
 
 	// one "resp" vector per frame forwarded during a step, all with the step's outcome
 	report := func(stage string, from int, outcome, detail string) {
@@ -308,11 +311,24 @@ func vfC18RunPush(c vfC18PushCase, emit func(vfC18PushVec)) {
 			"outcome": "error", "detail": "no connection registered for events"})
 		return
 	}
+	// events leave the queue when the 1 s debounce timer fires: keep what was flushed too, so that a starved
+	// poller on a saturated machine still sees them
+	var fmu sync.Mutex
+	var flushed []frame
+	s.nodeEvents.mu.Lock()
+	origCallback := s.nodeEvents.callback
+	s.nodeEvents.callback = func(fr []frame) {
+		fmu.Lock()
+		flushed = append(flushed, fr...)
+		fmu.Unlock()
+		origCallback(fr)
+	}
+	s.nodeEvents.mu.Unlock()
 	push := func(stage string, body []byte, seen func(frame) bool) {
 		mark := px.snapshot()
 		reg.Event(body)
-		outcome, detail := "error", "the event did not reach the session's event queue within 800 ms"
-		deadline := time.Now().Add(800 * time.Millisecond)
+		outcome, detail := "error", "the event did not reach the session's event queue within 4 s"
+		deadline := time.Now().Add(4 * time.Second)
 		for time.Now().Before(deadline) && outcome != "value" {
 			s.nodeEvents.mu.Lock()
 			for _, f := range s.nodeEvents.events {
@@ -321,6 +337,13 @@ func vfC18RunPush(c vfC18PushCase, emit func(vfC18PushVec)) {
 				}
 			}
 			s.nodeEvents.mu.Unlock()
+			fmu.Lock()
+			for _, f := range flushed {
+				if seen(f) {
+					outcome, detail = "value", ""
+				}
+			}
+			fmu.Unlock()
 			if outcome != "value" {
 				time.Sleep(5 * time.Millisecond)
 			}
